@@ -320,7 +320,7 @@ class C09(Spec):
         mout = self.model_out(c, ml)
         plan = S.Plan(c['tree'])
         plan.hint = max(sum(h) for h in self.histories(c))
-        tol = S.FIR_TOL if S.is_fir(c['tree']) else 0.0
+        tol = S.tree_tol(c['tree'])
         out, j = [], 0
         for h, rec in zip(self.histories(c), res):
             if rec and rec[0] == 'err':
